@@ -224,3 +224,45 @@ def install_structural(set_shim=True):
         shim = _SetShim()
         sp.set = shim
         pr.set = shim
+
+
+def install_set_rewrite():
+    """C09 only.  Meta-path hook: every statham module is compiled from an AST in which set displays
+    `{a, b}` and set comprehensions are rewritten into calls of the module-global name `set`, so that the
+    order-oracle shim (which replaces that name) reaches them too.  Must run before statham is imported."""
+    import ast
+    import importlib.abc
+    import importlib.machinery
+    import sys
+
+    class Rewriter(ast.NodeTransformer):
+        def visit_Set(self, node):
+            self.generic_visit(node)
+            return ast.copy_location(ast.Call(func=ast.Name(id="set", ctx=ast.Load()), args=[ast.List(elts=node.elts, ctx=ast.Load())], keywords=[]), node)
+
+        def visit_SetComp(self, node):
+            self.generic_visit(node)
+            return ast.copy_location(ast.Call(func=ast.Name(id="set", ctx=ast.Load()), args=[ast.ListComp(elt=node.elt, generators=node.generators)], keywords=[]), node)
+
+    class Loader(importlib.machinery.SourceFileLoader):
+        def get_code(self, fullname):  # never use cached bytecode of the unrewritten source
+            path = self.get_filename(fullname)
+            return self.source_to_code(self.get_data(path), path)
+
+        def source_to_code(self, data, path, *, _optimize=-1):
+            tree = Rewriter().visit(ast.parse(data, path))
+            ast.fix_missing_locations(tree)
+            return compile(tree, path, "exec", dont_inherit=True, optimize=_optimize)
+
+    class Finder(importlib.abc.MetaPathFinder):
+        def find_spec(self, fullname, path, target=None):
+            if fullname != "statham" and not fullname.startswith("statham."):
+                return None
+            spec = importlib.machinery.PathFinder.find_spec(fullname, path)
+            if spec is not None and isinstance(spec.loader, importlib.machinery.SourceFileLoader):
+                spec.loader = Loader(spec.loader.name, spec.loader.path)
+            return spec
+
+    if any(m == "statham" or m.startswith("statham.") for m in sys.modules):
+        raise RuntimeError("install_set_rewrite() must run before statham is imported")
+    sys.meta_path.insert(0, Finder())
